@@ -7,6 +7,7 @@ import (
 	"fmt"
 	"math"
 	"math/big"
+	"strconv"
 	"os"
 	"reflect"
 	"strings"
@@ -249,6 +250,7 @@ func soilParams(e ev, g *hermes.GlobalVarsMain) {
 	e["WNOR"] = fxs("WNOR", g.WNOR[:n], 9)
 	e["WRED"] = fx("WRED", g.WRED, 9)
 	e["grw"] = fx("GRW", g.GRW, 6)
+	e["grwkey"] = strconv.FormatUint(math.Float64bits(g.GRW), 16) // the exact level: two levels are the same level only bit for bit
 }
 
 // scanFinite walks all float64 fields (scalars, arrays, slices, nested arrays) of the state struct and
